@@ -20,7 +20,7 @@ ANCHORS = ["pyrex.internal_functions:LazyMutableClass.__setattr__", "pyrex.inter
            "pyrex.signals:FunctionSignal.set_buffers", "pyrex.signals:FunctionSignal.shift",
            "pyrex.ray_tracing:BasicRayTracer.solutions", "pyrex.ray_tracing:UniformRayTracer.solutions"]
 RULE = ("one case = one history of 2-15 operations: for signals {read, shift, *=, /=, filter_frequencies, set_buffers("
-        "leading/trailing/force), resample, with_times, +, copy, times=} on FunctionSignal / FFTThermalNoise / "
+        "leading/trailing/force), resample, with_times, + (either side, operands kept and re-read), copy, times=, times+=} on FunctionSignal / FFTThermalNoise / "
         "FullThermalNoise / AVZ / ZHS / ARZ Askaryan objects; for ray objects assignments of from_point/to_point/ice/dz on "
         "Specialized/Basic/Uniform tracers and of theta0/to_point/dz/direct on their paths, each followed by reads; "
         "non-trivial = the history contains at least one read-mutate-read pattern that was decided; distinct = hash of the case")
@@ -178,8 +178,9 @@ def run_signal_case(case, v):
     vt = s.value_type
     log, rmr = [], 0
     read_before, mutated = False, False
+    watched = []        # (operand object, its own shadow, value type): operands of earlier '+' / 'copy' must keep reporting their own definition
     for step in range(case["nops"]):
-        op = str(rng.choice(["read", "shift", "imul", "idiv", "filter", "filter", "buffers", "buffers", "resample", "with_times", "add", "copy", "times"]))
+        op = str(rng.choice(["read", "shift", "imul", "idiv", "filter", "filter", "buffers", "buffers", "resample", "with_times", "add", "copy", "times", "times_iadd"]))
         dt = s.dt
         if op == "shift":
             d = float(rng.uniform(-20e-9, 20e-9))
@@ -244,14 +245,27 @@ def run_signal_case(case, v):
                 oc["filters"].append((RESPS[r], True))
             if rng.random() < 0.5:
                 _ = o.values         # the operand may already have been read
-            s = s + o
+            left = rng.random() < 0.3
+            prev, prev_sh = s, sh.copy()
+            s = (o + s) if left else (s + o)
             sh = sh.copy()
-            sh.comps.append(oc)
-            log.append("+FunctionSignal(%d)" % k)
+            if left:
+                sh.comps.insert(0, oc)
+            else:
+                sh.comps.append(oc)
+            watched.append((o, Shadow(sh.times.copy(), [dict(oc, filters=list(oc["filters"]))]), o.value_type))
+            watched.append((prev, prev_sh, vt))
+            log.append("%sFunctionSignal(%d)" % ("reflected +" if left else "+", k))
         elif op == "copy":
+            watched.append((s, sh.copy(), vt))
             s = s.copy()
             sh = sh.copy()
             log.append("copy")
+        elif op == "times_iadd":
+            d = float(rng.uniform(-5e-9, 5e-9))
+            s.times += d            # augmented assignment: the attribute is re-bound to the array it already holds
+            sh.times = sh.times + d
+            log.append("times+=%.3g" % d)
         elif op == "times":
             mult = int(rng.choice([1, 2]))
             nt = s.times[0] + np.arange(len(s.times)) * dt * mult
@@ -293,6 +307,17 @@ def run_signal_case(case, v):
                 rmr += 1
             if not (ok1 and ok2):
                 break
+            # operands of earlier additions / copies still report their own definition (nothing the result did reached them)
+            for wobj, wsh, wvt in watched[-4:]:
+                try:
+                    wv = np.array(wobj.values)
+                    wf = np.array(fresh_from_shadow(wsh, wvt).values)
+                except Exception:       # noqa: BLE001 -- e.g. single-sample leftovers; not this clause's business
+                    continue
+                if wv.shape == wf.shape:
+                    wsc = max(float(np.max(np.abs(wf))), float(np.max(np.abs(wv))), 1e-30)
+                    if not v.close("operands of earlier operations still report their own definition", float(np.max(np.abs(wv - wf))) / wsc, 1e-9, history=log[-8:]):
+                        break
     return rmr, {"kind": case["cls"], "N": case["N"], "dt": case["dt"], "history": log, "read_mutate_read": rmr}
 
 
@@ -363,11 +388,23 @@ def run_ray_case(case, v):
         for step in range(case["nops"]):
             op = str(rng.choice(["read", "from_point", "to_point", "ice", "dz"] if kind != "uniform" else ["read", "from_point", "to_point", "ice"]))
             if op == "from_point":
-                state["from"] = pt()
-                tr.from_point = np.array(state["from"])
+                if rng.random() < 0.4:
+                    off = np.array([float(rng.uniform(-30, 30)), float(rng.uniform(-30, 30)), float(rng.uniform(-5, 0))])
+                    state["from"] = [state["from"][i] + off[i] for i in range(3)]
+                    tr.from_point += off          # augmented assignment re-binds the same array object
+                    op = "from_point+="
+                else:
+                    state["from"] = pt()
+                    tr.from_point = np.array(state["from"])
             elif op == "to_point":
-                state["to"] = pt()
-                tr.to_point = np.array(state["to"])
+                if rng.random() < 0.4:
+                    off = np.array([float(rng.uniform(-30, 30)), float(rng.uniform(-30, 30)), float(rng.uniform(-5, 0))])
+                    state["to"] = [state["to"][i] + off[i] for i in range(3)]
+                    tr.to_point -= -off
+                    op = "to_point-="
+                else:
+                    state["to"] = pt()
+                    tr.to_point = np.array(state["to"])
             elif op == "ice":
                 state["ice"] = ice_for()
                 tr.ice = gen.make_ice(state["ice"])
